@@ -112,7 +112,7 @@ func Generate(prop string, r *sim.Rand, tier string) *sim.Plan {
 			s.Local = r.Chance(0.6)
 		case "commit":
 			s.K = r.Intn(4)
-			s.Mode = []string{"full", "full", "full", "full", "dup", "partial", "foreign"}[r.Intn(7)]
+			s.Mode = []string{"full", "full", "full", "full", "dup", "partial", "foreign", "peerblocks"}[r.Intn(8)]
 			if s.Mode == "foreign" && !cfg.Foreign {
 				s.Mode = "full"
 			}
@@ -560,6 +560,50 @@ func execInBubble(prop string, p *sim.Plan, res *sim.Result) {
 				res.Count("fault_commit_of_unseen_txs")
 				res.Log.Logf("%d commit foreign block A%d x%d", i, a, cnt)
 				r.pool.CommitTransactions(&mempool.ChainState{Height: m.committedH, TxHashList: hashes})
+				synctest.Wait()
+				r.afterCommitCleanup()
+				break
+			}
+			if mode == "peerblocks" {
+				// this replica as a follower: another leader minted two consecutive blocks out of transactions this pool
+				// holds ready and unbatched (it got them by broadcast); the commit reports reach the pool in swapped order
+				// (the application sends each one from a goroutine of its own)
+				pick := func(a int) []*mtx {
+					var out []*mtx
+					for n := m.ledgerNonce[a]; len(out) < 1+s.K%2; n++ {
+						mt := m.present[a][n]
+						if mt == nil || mt.batched || mt.status != "held" {
+							break
+						}
+						out = append(out, mt)
+					}
+					return out
+				}
+				a := s.K % cfg.Accounts
+				first := pick(a)
+				if len(first) == 0 {
+					continue
+				}
+				var second []*mtx
+				if b := (a + 1) % cfg.Accounts; b != a && s.K%3 != 0 {
+					second = pick(b)
+				}
+				h1, h2 := m.committedH+1, m.committedH+2
+				m.committedH += 2
+				var hs1, hs2 []*types.Hash
+				for _, mt := range first {
+					hs1 = append(hs1, mt.tx.GetHash())
+					r.commitModelTx(mt)
+				}
+				for _, mt := range second {
+					hs2 = append(hs2, mt.tx.GetHash())
+					r.commitModelTx(mt)
+				}
+				res.Count("fault_peer_blocks_reported_out_of_order")
+				res.Log.Logf("%d commit peer blocks %d (A%d x%d) and %d (x%d), reports swapped", i, h1, a, len(first), h2, len(second))
+				r.pool.CommitTransactions(&mempool.ChainState{Height: h2, TxHashList: hs2})
+				synctest.Wait()
+				r.pool.CommitTransactions(&mempool.ChainState{Height: h1, TxHashList: hs1})
 				synctest.Wait()
 				r.afterCommitCleanup()
 				break
